@@ -153,7 +153,7 @@ int main()
             out << macro_port((size_t)atoi(f[1].c_str()));
             ok = true;
         }
-        else if(f[1] == "static") ok = run_case<MObj>(f, out);
+        else if(f[1].compare(0, 6, "static") == 0) ok = run_case<MObj>(f, out);   // "static" or "static@<tables for the model>"
         else {
             std::string err;
             if(!build_app(f[1], err)) { printf("BADCASE %s\n", err.c_str()); continue; }
